@@ -62,6 +62,10 @@ package middleware
 //@ at call sessionValidator assert[validates-this-session] arg(sessionValidator, 1) == session
 
 //@ func (*storedSessionLoader).refreshSession
+//@ prop C12 C18 C10 C16
+//@ at call Save assert[saved-on-the-clients-own-request-and-response] arg(Save, 0) == rw && arg(Save, 1) == req && recv(Save) == s.store
+//@ at call sessionRefresher assert[refreshed-in-the-requests-context] arg(sessionRefresher, 0) == ret(Context) && recv(Context) == req
+//@     && arg(sessionRefresher, 1) == session
 //@ prop C12 C09 C13 C14
 //@ at call Save assert[restamped-before-save] called(CreatedAtNow) && arg(CreatedAtNow, 0) == session && arg(Save, 2) == session
 //@     && (ret0(sessionRefresher) || errors.Is(ret1(sessionRefresher), providers.ErrNotImplemented))
